@@ -47,6 +47,8 @@ type c15Exchange struct {
 	// Portless (copy): 1 or 2 = go through one of the two copy proxies whose director names a host WITHOUT a port
 	// (the backend's port is then the port the client connected to); 0 = the ordinary copy proxy
 	Portless int `json:"portless"`
+	// StderrN (ssh): the backend also writes this many bytes to the session's extended data stream (stderr)
+	StderrN int `json:"stderr"`
 }
 
 type c15Seen struct {
@@ -123,6 +125,7 @@ type c15Rig struct {
 	dnsSeen                        map[string][][]byte
 	decoy                          int
 	replyPlan                      map[string][]int
+	stderrPlan                     map[string]int
 	replyCut                       map[string]int
 	replyAtEOF                     map[string]bool
 }
@@ -348,6 +351,7 @@ func (r *c15Rig) run(ex c15Exchange) c15Result {
 		}
 		r.mu.Lock()
 		r.replyPlan[name] = ex.Replies
+		r.stderrPlan[name] = ex.StderrN
 		r.replyCut[name] = ex.ReplyCut
 		r.replyAtEOF[name] = ex.HalfClose
 		r.mu.Unlock()
@@ -531,7 +535,7 @@ func c15Main(args []string) error {
 	quietLogs()
 	defer cleanupScratch()
 	rig := &c15Rig{httpSeen: map[string][]c15Seen{}, httpReplied: map[string][]c15Seen{}, copySeen: map[string][]byte{}, copyAt: map[string]string{}, dnsSeen: map[string][][]byte{},
-		replyPlan: map[string][]int{}, replyCut: map[string]int{}, replyAtEOF: map[string]bool{}}
+		replyPlan: map[string][]int{}, stderrPlan: map[string]int{}, replyCut: map[string]int{}, replyAtEOF: map[string]bool{}}
 	hb, hbAddr := listenLocal()
 	cb, cbAddr := listenLocal()
 	dl, dlAddr := listenLocal()
